@@ -361,7 +361,7 @@ def run(ctx):
                 p.steps.append({"ew": ew, "es": es, "path": "df", "max_singles": 3})
                 p.steps.append({"ew": None, "es": None, "path": "df", "max_singles": 1})
             plans.append(p)
-    for i in range(2 if quick else 8):
+    for i in range(1 if quick else 8):
         p = Plan(f"sequence:random{i}", False)
         for _ in range(30 if quick else 120):
             ew = rng.choice([None, None, rng.randint(LO, HI), rng.choice([6, 10, 20, 28, 38, -1, 39, 45, 5])])
@@ -410,7 +410,7 @@ def run(ctx):
                     for v in (5e-30, -7e-20, 9e-12, 4.9e-12, 6.5e-05):
                         fl = float_lit(v)
                         pairs.append(("sci-directed", fl if st["path"] == "df" else fl[:-1] + ("text",), zero))
-                if st["path"] == "df" and not lite:
+                if st["path"] == "df" and not lite and p.fresh:
                     for _ in range(2):
                         pairs.append(("float", float_lit(rng.choice(FLOATS)), float_lit(rng.choice(FLOATS))))
             else:
